@@ -53,12 +53,28 @@ objs=[grad(grad(f))[0,1]*v.dx(0)*dx + grad(grad(g))[1,0,1]*v*dx]'''),
 ]
 
 
+# integrands that exercise every handler of the argument factorisation (only their factorisation is compared)
+FACT_EXTRA = [
+    corpus._c("fact_division_and_conditionals", '''
+m=mesh("triangle"); V=space(m,"P",2); u,v=TrialFunction(V),TestFunction(V); f=Coefficient(V); g=Coefficient(V); k=Constant(m)
+objs=[(u/(f*f+2))*v*dx + inner(grad(u)/(g+3), grad(v))*dx + u*v/k*ds, conditional(gt(f,g), u, 2*u.dx(0))*v*dx + conditional(lt(f,k), u*v, 0)*ds,
+      (v/(f+2) + conditional(ge(g,f), v.dx(1), v)/k)*g*dx, conditional(gt(f,g), conditional(lt(f,k), u, 0), u.dx(1))*v.dx(0)*dx]'''),
+    corpus._c("fact_interior_facet_products", '''
+m=mesh("triangle"); V=space(m,"DP",1); u,v=TrialFunction(V),TestFunction(V); f=Coefficient(V); n=FacetNormal(m)
+objs=[(avg(f)*jump(u)*jump(v) - inner(avg(grad(u)), n('+'))*jump(v)/avg(f*f+1) + conditional(gt(f('+'),f('-')), u('+'), u('-'))*jump(v))*dS]'''),
+    corpus._c("fact_mixed_vector_blocks", '''
+m=mesh("triangle"); E=basix.ufl.mixed_element([el("P","triangle",2,shape=(2,)), el("P","triangle",1)]); W=FunctionSpace(m,E)
+(u,p)=TrialFunctions(W); (v,q)=TestFunctions(W); w=Coefficient(W); (a,b)=split(w)
+objs=[inner(dot(a,nabla_grad(u)),v)*dx + inner(dot(u,nabla_grad(a)),v)*dx - p*div(v)*dx - q*div(u)*dx + b*p*q/(b*b+1)*dx]'''),
+]
+
+
 def run(v, tier, seed, g):
     cases = list(corpus.PINNED) + EXTRA + corpus.random_cases(seed, 90 if tier == "quick" else 800)
     res = valprops.run_oracle(cases, seed)
     st = valprops.account(v, res, "c01", types={"cell"})
     # the algebraic core: argument factorisation of every integrand of these forms vs the proved model (Fact.v)
-    fst = factcorr.run(v, cases, seed, "c01")
+    fst = factcorr.run(v, cases + FACT_EXTRA, seed, "c01")
     # table classification / reduction: the real predicates vs the proved model (Tab.v) on generated tables
     tst = tabcorr.run(v, seed, 500 if tier == "quick" else 6000)
     if not g["ok"] and not v.violations:
